@@ -324,3 +324,13 @@ def c13_atr_inputs_checked_against_ledger(ctx, v):
                 ok += 1
     v.covers_total += 1
     v.covers_sat += 1 if ok else 0
+
+
+def c13_index_tip_follows_reorg(ctx, v):
+    """the rebroadcast commitment of a block is only compared when validate_against_utxo is on, and
+    that switch (C01 c01_ledger_check_switch) reads the tip height from the longest-chain index:
+    BlockRing::on_chain_reorganization must move the tip pointer to the previous slot — also
+    across the ring's wrap-around — when a block is unwound (same obligation as C03
+    c03_m_blockring_reorg)."""
+    from . import obl_c03
+    obl_c03.c03_m_blockring_reorg(ctx, v)
